@@ -117,7 +117,7 @@ def run(ctx):
         if okd:
             for cv, bb in callers:
                 swaps = [c.bb for c in closed.calls('mem::swap') if 'high_priority_operation_queue' in show(c.arg(1)) + show(c.arg(0))]
-                brk = prims.edge_nodes_matching(closed, [r'^Try::branch\(ProtocolState::apply_connection_closed_to_current_operation\(self\)\) is Break$'])
+                brk = prims.edge_nodes_matching(closed, [r'^Try::branch\(.*ProtocolState::apply_connection_closed_to_current_operation\(self\)\)*\) is Break$'])
                 ok_, _ = must_pass(closed, bb, set(swaps) | set(brk))
                 okd = okd and ok_ and bool(swaps)
         ctx.ob(okd, 'direct high-priority push (%s in %s) happens only in the closed handler and is followed by the drain of the queue' % (m.method, short(m.view.path)), 'hp-direct|' + short(m.view.path), loc=m.loc())
